@@ -391,7 +391,8 @@ def oracle_c01_server(sc, steps, tr):
     kind = sc["kind"]
     submitted_at = {}     # (backtest, content key) -> list of clock dates, in submission order
     id_clock = {}         # (backtest, order id) -> clock date at submission
-    over = set()          # backtests ticked after has_next was false
+    over = set()          # backtests ticked after has_next was reported false
+    stopped = {}          # backtest -> the last tick reported has_next = false
     for k, st in enumerate(steps):
         if st["panic"]:
             break
@@ -409,9 +410,10 @@ def oracle_c01_server(sc, steps, tr):
             okey = exch.ukey(b_post["exch"]["buffer"][-1]) if kind == "uist" else exch.jkey(b_post["exch"]["buffer"][-1])
             submitted_at.setdefault((bid, okey), []).append(b_pre["date"])
             continue
-        # tick
-        if b_pre["pos"] >= len(dates):
+        # tick: a client that stops once has_next is false never issues a tick after such a report
+        if stopped.get(bid):
             over.add(bid)
+        stopped[bid] = not st["val"]["has_next"]
         n = len(st["val"]["admitted"])
         tail = b_post["exch"]["book"][len(b_post["exch"]["book"]) - n:] if n else []
         for e in tail:
